@@ -3,6 +3,7 @@ package props
 import (
 	"bytes"
 	"fmt"
+	"github.com/ipld/go-ipld-prime"
 	"math"
 	"strings"
 	"time"
@@ -93,6 +94,20 @@ func c07Decoders(typ string) []decVariant {
 			decVariant{"delegation.DecodeReader", "dagcbor", func(b []byte) (token.Token, error) {
 				return wrapD(delegation.DecodeReader(bytes.NewReader(b), dagcbor.Decode))
 			}},
+			decVariant{"delegation.FromIPLD", "dagcbor", func(b []byte) (token.Token, error) {
+				n, err := ipld.Decode(b, dagcbor.Decode)
+				if err != nil {
+					return nil, err
+				}
+				return wrapD(delegation.FromIPLD(n))
+			}},
+			decVariant{"delegation.FromIPLD(json)", "dagjson", func(b []byte) (token.Token, error) {
+				n, err := ipld.Decode(b, dagjson.Decode)
+				if err != nil {
+					return nil, err
+				}
+				return wrapD(delegation.FromIPLD(n))
+			}},
 			decVariant{"delegation.FromDagJson", "dagjson", func(b []byte) (token.Token, error) { return wrapD(delegation.FromDagJson(b)) }},
 			decVariant{"delegation.FromDagJsonReader", "dagjson", func(b []byte) (token.Token, error) { return wrapD(delegation.FromDagJsonReader(bytes.NewReader(b))) }},
 		)
@@ -108,6 +123,20 @@ func c07Decoders(typ string) []decVariant {
 			decVariant{"invocation.Decode", "dagcbor", func(b []byte) (token.Token, error) { return wrapI(invocation.Decode(b, dagcbor.Decode)) }},
 			decVariant{"invocation.DecodeReader", "dagcbor", func(b []byte) (token.Token, error) {
 				return wrapI(invocation.DecodeReader(bytes.NewReader(b), dagcbor.Decode))
+			}},
+			decVariant{"invocation.FromIPLD", "dagcbor", func(b []byte) (token.Token, error) {
+				n, err := ipld.Decode(b, dagcbor.Decode)
+				if err != nil {
+					return nil, err
+				}
+				return wrapI(invocation.FromIPLD(n))
+			}},
+			decVariant{"invocation.FromIPLD(json)", "dagjson", func(b []byte) (token.Token, error) {
+				n, err := ipld.Decode(b, dagjson.Decode)
+				if err != nil {
+					return nil, err
+				}
+				return wrapI(invocation.FromIPLD(n))
 			}},
 			decVariant{"invocation.FromDagJson", "dagjson", func(b []byte) (token.Token, error) { return wrapI(invocation.FromDagJson(b)) }},
 			decVariant{"invocation.FromDagJsonReader", "dagjson", func(b []byte) (token.Token, error) { return wrapI(invocation.FromDagJsonReader(bytes.NewReader(b))) }},
